@@ -350,6 +350,9 @@ func c07(r *Run) {
 		}
 	}
 
+	// an already expired deadline answers with the timeout error
+	expiredRule(r, waitRead, "ErrReadTimeout", "C07.R5")
+
 	// ---- R6 no nil receiver on the address fields ---------------------------------------------
 	nilGuards(r)
 }
@@ -405,6 +408,19 @@ func timerHygiene(r *Run, fn *ssa.Function, field, prop string) {
 	wit := ss.Find(startsAfter(arms), nil, true)
 	r.Visited += ss.Visited
 	r.obW(prop+".R4:timer-settled:"+fn.Name(), "every path from arming the reused timer to a return either consumed the tick or called Stop(): no armed timer is left behind for the next call", fn, nil, wit, "<-timer.C or Stop() on every path")
+	// (a') the timer is (re)armed on every path before the function can block on it
+	for i, b := range findIns(fn, func(i ssa.Instruction) bool {
+		if s, ok := i.(*ssa.Select); ok && s.Blocking {
+			for _, st := range s.States {
+				if strings.HasSuffix(pathOf(st.Chan), "."+field+".C") {
+					return true
+				}
+			}
+		}
+		return false
+	}) {
+		r.precedes(fmt.Sprintf("%s.R4:timer-armed-before-wait:%s#%d", prop, fn.Name(), i+1), "the reused timer is created or re-armed on every path before the function waits on it (a second timed call must not wait on a dead timer)", fn, b, isArm, nil, "NewTimer/Reset dominates the select")
+	}
 	// (b) Stop()==false is followed by a drain
 	stopFalse := func(v ssa.Value) (bool, bool) {
 		if isStop(v) {
@@ -435,6 +451,32 @@ func timerHygiene(r *Run, fn *ssa.Function, field, prop string) {
 		wit := ss.Find(tickEdges, recvStop, false)
 		r.Visited += ss.Visited
 		r.obW(prop+".R4:no-double-drain:"+fn.Name(), "after the select consumed the tick no path receives from the timer channel again without re-arming (it would block for ever)", fn, nil, wit, "no second <-timer.C")
+	}
+	// (d) when the tick was received the outcome is the timeout error (or success if the condition was met meanwhile)
+	errName := map[string]string{"readTimer": "ErrReadTimeout", "writeTimer": "ErrWriteTimeout"}[field]
+	if errName != "" && len(tickEdges) > 0 {
+		ss := &Search{Fn: fn, Stop: w.isException(errName)}
+		var wit *Witness
+		for _, ret := range ss.Reachable(tickEdges, func(i ssa.Instruction) bool { _, ok := i.(*ssa.Return); return ok }) {
+			// a return reached from the tick edge without constructing the timeout error must be a success/trigger return
+			rr := ret.(*ssa.Return)
+			okRet := lastResultAll(rr, func(v ssa.Value) bool {
+				if isNilConst(v) {
+					return true
+				}
+				if ex, isE := v.(*ssa.Extract); isE {
+					_, isSel := ex.Tuple.(*ssa.Select)
+					return isSel
+				}
+				return false
+			})
+			if !okRet {
+				s2 := &Search{Fn: fn, Stop: w.isException(errName)}
+				wit = s2.Find(tickEdges, isIns(ret), false)
+			}
+		}
+		r.Visited += ss.Visited
+		r.obW(prop+".R4:tick-means-timeout:"+fn.Name(), "once the timer's tick was received the call returns "+errName+" (or success / the trigger's value if that arrived meanwhile) - no other error", fn, nil, wit, errName+" on every failing path from the tick edge")
 	}
 	_ = w
 }
@@ -515,4 +557,33 @@ func errMappingRules(r *Run, prefix string) {
 				anyOf(bad...), nil, nil, nil, "no receive / other Exception reachable")
 		}
 		}
+}
+
+// expiredRule: on the edge "remaining time <= 0" (a time.Duration compared with 0) every path returns the timeout error.
+func expiredRule(r *Run, fn *ssa.Function, errName, prefix string) {
+	w := r.W
+	expired := func(v ssa.Value) (bool, bool) {
+		b, ok := v.(*ssa.BinOp)
+		if !ok || !isConstEq(0)(b.Y) {
+			return false, false
+		}
+		if n, isNamed := b.X.Type().(*types.Named); !isNamed || n.Obj().Name() != "Duration" {
+			return false, false
+		}
+		if _, isField := b.X.(*ssa.UnOp); isField {
+			return false, false // a configured timeout field, not a remaining time
+		}
+		if _, isPhi := b.X.(*ssa.Phi); isPhi {
+			return false, false
+		}
+		switch b.Op {
+		case token.LEQ, token.LSS:
+			return true, true
+		case token.GTR, token.GEQ:
+			return false, true
+		}
+		return false, false
+	}
+	starts := edgesEstablishing(fn, expired)
+	r.mustPass(prefix+":expired-deadline-returns-timeout:"+fn.Name(), "when the deadline has already passed the call returns "+errName, fn, nil, starts, w.isException(errName), nil, nil, "Exception("+errName+") on every path from remaining<=0")
 }
